@@ -43,6 +43,9 @@ undefined / defined in the namespace, alone and in front of a real tag); they al
 correspondence.
 Concurrent compilation: templates are independent objects; 2-3 threads compile and render their own, different
 templates under harness/sched.py's line scheduler (every way of making an object compile), expected = the printer.
+One object shared by threads: 2-3 threads edit / re-cook / render ONE object (every source-giving and source-keeping
+operation, object compiled before or not) under the same scheduler; once all have returned the object renders the text of
+the source it then has (read()), which is one of those given; versions incl. tag-free texts and the empty source.
 """
 import copy
 import json
@@ -1287,7 +1290,209 @@ def run_concurrent(res, r, n, pool):
             break
 
 
-def run_checks(res, r, n_tmpl, n_plain, n_pairs, have_driver, n_hist=0, battery_stride=1, n_walks=0, n_conc=0, nonascii_stride=1):
+# --------------------------------------------------------------------------- several threads work on ONE template object
+
+SHARED_GIVE = ['munge(src)', 'munge(source_string=src)', 'manage_edit(src)', 'manage_edit(src, None)', 'raw = src; cook()']
+SHARED_KEEP = ['cook()', 'munge()', 'munge(None)', 'render', 'render']
+SHARED_STATES = ['new', 'rendered', 'rendered', 'unpickled', 'deepcopied', 'edited']
+
+
+def shared_object(state, cls, src):
+    """the object the threads share, holding `src`, made outside the scheduled run: never compiled yet (new / unpickled /
+    deep-copied: its first rendering compiles it) or compiled (rendered before / edited to `src`)"""
+    ns = namespace()
+    if state == 'new':
+        return cls(src)
+    if state == 'unpickled':
+        return pickle.loads(pickle.dumps(cls(src)))
+    if state == 'deepcopied':
+        return copy.deepcopy(cls(src))
+    if state == 'edited':
+        t = cls('before <dtml-var y> %(y)s')
+        outcome(lambda: t(**ns))
+        t.munge(src)
+        return t
+    t = cls(src)
+    outcome(lambda: t(**ns))
+    return t
+
+
+def shared_body(t, ops):
+    """a thread body: the operations (op, src) on the shared object one after the other; returns what its renderings gave"""
+    ns = namespace()
+
+    def body():
+        outs = []
+        for op, src in ops:
+            if op == 'munge(src)':
+                t.munge(src)
+            elif op == 'munge(source_string=src)':
+                t.munge(source_string=src)
+            elif op == 'manage_edit(src)':
+                t.manage_edit(src)
+            elif op == 'manage_edit(src, None)':
+                t.manage_edit(src, None)
+            elif op == 'raw = src; cook()':
+                t.raw = src
+                t.cook()
+            elif op == 'cook()':
+                t.cook()
+            elif op == 'munge()':
+                t.munge()
+            elif op == 'munge(None)':
+                t.munge(None)
+            else:
+                outs.append(t(**ns))
+        return outs
+    return body
+
+
+def shared_versions(r, pool, syn, nvers):
+    """nvers versions (kind, source, expected rendering) in one syntax: small templates, templates of the pool, tag-free
+    texts rich in near-tag fragments and tag candidates and templates written in the other class's syntax (those must
+    render to themselves), the empty source"""
+    kind = 'epfs' if syn == 'epfs' else 'html'
+    vs = []
+    for i in range(nvers * 6):
+        if len(vs) == nvers:
+            break
+        x = r.random()
+        if x < 0.3:
+            msrc = gen_plain(r) * r.choice([1, 1, 2, 5])
+            src, cands = split_marks(msrc)
+            if not lit_ok(msrc) or not cands_are_text(kind, src, cands):
+                continue
+            v = (src, src)
+        elif x < 0.36:
+            v = ('', '')
+        elif x < 0.46:
+            # a template printed in the syntax of the OTHER class: plain text for this one
+            t = conc_simple(r, r.randrange(6)) if (r.random() < 0.6 or not pool) else r.choice(pool)
+            _, msrc = tmplgen.render_source(t, r.choice(['dtml', 'ssi']) if kind == 'epfs' else 'epfs', r)
+            if not text_only_for(kind, msrc):
+                continue
+            src = split_marks(msrc)[0]
+            v = (src, src)
+        else:
+            t = conc_simple(r, r.randrange(6)) if (x < 0.75 or not pool) else r.choice(pool)
+            k2, src, cands = printed(t, syn, r)
+            if k2 != kind or not cands_are_text(kind, src, cands):
+                continue
+            v = (src, expected(t))
+        if any(v[0] == w[0] for w in vs):
+            continue
+        vs.append(v)
+    return kind, vs
+
+
+def run_shared_object(res, r, n, pool):
+    """One template object has one source at a time, and what it renders is the text of THAT source -- also when the
+    operations on it come from several threads.  2-3 threads work on ONE object (never compiled yet / compiled before) of
+    HTML or String: each performs one or two operations out of every source-giving one (munge positional / keyword,
+    manage_edit, raw = src + cook()) and every source-keeping one (cook(), munge(), munge(None), a rendering -- the first
+    rendering of an object not yet compiled compiles it), at least one thread giving a new source, under the deterministic
+    line scheduler with preemptions at every kind of point inside the operations.  When all threads have returned: the
+    object's source (read()) is one of those it was given, it renders (twice, and once more after cook()) to what the
+    independent printer says for the version that IS its source (a tag-free version: to itself); a rendering made by a
+    thread meanwhile is the printer's rendering of one of the versions the object ever held."""
+    import sched
+    from DocumentTemplate import HTML, String
+    import DocumentTemplate
+    pkg = os.path.dirname(DocumentTemplate.__file__) + os.sep
+    usable = [t for t in pool if sum(1 for _ in str(t)) < 900]
+    ns = namespace()
+    for case in range(n):
+        nthreads = 3 if r.random() < 0.25 else 2
+        syn = r.choice(['dtml', 'dtml', 'ssi', 'epfs'])
+        kind, vs = shared_versions(r, usable, syn, nthreads + 2)
+        if len(vs) < 3:
+            res.count('shared_object_excluded_too_few_versions')
+            continue
+        cls = HTML if kind == 'html' else String
+        state = r.choice(SHARED_STATES)
+        r.shuffle(vs)
+        start, rest = vs[0], vs[1:]
+        # what each thread does: thread 0 and the others give a source or keep it; at least one gives one
+        plans = []
+        for k in range(nthreads):
+            ops = []
+            for _ in range(2 if r.random() < 0.3 else 1):
+                if r.random() < 0.65:
+                    ops.append((r.choice(SHARED_GIVE), rest[(k + len(ops)) % len(rest)][0]))
+                else:
+                    ops.append((r.choice(SHARED_KEEP), None))
+            plans.append(ops)
+        if not any(s is not None for ops in plans for _, s in ops):
+            k = r.randrange(nthreads)
+            plans[k] = [(r.choice(SHARED_GIVE), rest[k % len(rest)][0])]
+        given = [s for ops in plans for _, s in ops if s is not None]
+        exp_of = dict(vs)
+        any_exp = {exp_of[start[0]]} | {exp_of[s] for s in given}
+        case_desc = {'class': cls.__name__, 'syntax': syn, 'object': state, 'source before': start[0],
+                     'threads': [[{'op': op, 'src': s} for op, s in ops] for ops in plans]}
+
+        def setup():
+            t = shared_object(state, cls, start[0])
+            return t, [shared_body(t, ops) for ops in plans]
+        # how many yield points does thread 0 pass alone?
+        t, bodies = setup()
+        results, sc = sched.run_threads(bodies[:1], [(0, sched.INF)], {}, pkg)
+        n0 = sc.steps.get(0, 0)
+        if results[0] is None or results[0][0] != 'ok':
+            res.oracle_fail.append({'case': dict(case_desc, threads=case_desc['threads'][:1]),
+                                    'what': 'thread 0 alone under the scheduler: %r' % (results[0],)})
+            continue
+        ks = sorted(set([r.randrange(1, max(2, n0)) for _ in range(5)] + [r.randrange(1, max(2, min(n0, 60))) for _ in range(3)]))
+        for k in ks:
+            if nthreads == 2:
+                script = [(0, k), (1, sched.INF), (0, sched.INF)]
+                if r.random() < 0.3:
+                    script = [(0, k), (1, r.randrange(1, 150)), (0, r.randrange(1, 60)), (1, sched.INF), (0, sched.INF)]
+            else:
+                script = [(0, k), (1, r.randrange(1, 150)), (2, sched.INF), (0, r.randrange(1, 60)), (1, sched.INF), (0, sched.INF)]
+            t, bodies = setup()
+            results, sc = sched.run_threads(bodies, script, {}, pkg)
+            if any(x is None or x[0] in ('deadlock', 'hang') for x in results):
+                res.count('shared_object_excluded_scheduler_gave_up')
+                continue
+            res.evaluations += 1
+            res.count('shared_object_threads=%d' % nthreads)
+            res.count('shared_object_state=' + state)
+            res.count('shared_object_class=' + cls.__name__)
+            for ops in plans:
+                for op, _ in ops:
+                    res.count('shared_object_op=' + op)
+            res.nt(('shared', case, k))
+            desc = dict(case_desc, schedule=[[a, b if b < sched.INF else 'end'] for a, b in script])
+            bad = None
+            for tid, x in enumerate(results):
+                if x[0] != 'ok':
+                    bad = 'thread %d: %r' % (tid, x)
+                elif any(o not in any_exp for o in x[1]):
+                    bad = ('thread %d rendered %r, which is the rendering of none of the versions the object ever held (%r)'
+                           % (tid, x[1], sorted(any_exp)))
+                if bad:
+                    break
+            if bad is None:
+                now = outcome(t.read)
+                if 'ok' not in now or now['ok'] not in given:
+                    bad = 'after all threads returned the source of the object is %r: none of those it was given (%r)' % (now, given)
+                else:
+                    exp = exp_of[now['ok']]
+                    got = [outcome(lambda: t(**ns)), outcome(lambda: t(**ns))]
+                    outcome(t.cook)
+                    got.append(outcome(lambda: t(**ns)))
+                    if got != [{'ok': exp}] * 3:
+                        bad = ('after all threads returned the source of the object is %r, which must render to %r (twice, and '
+                               'again after cook()); got %r' % (now['ok'], exp, got))
+                    elif now['ok'] == exp:
+                        res.count('shared_object_final_source_renders_to_itself')
+            if bad:
+                res.oracle_fail.append({'case': desc, 'what': 'threads working on one template object under the line scheduler: ' + bad})
+                break
+
+
+def run_checks(res, r, n_tmpl, n_plain, n_pairs, have_driver, n_hist=0, battery_stride=1, n_walks=0, n_conc=0, nonascii_stride=1, n_shared=0):
     corr_cases = []
     tmpls = []
     for _ in range(n_tmpl):
@@ -1361,6 +1566,11 @@ def run_checks(res, r, n_tmpl, n_plain, n_pairs, have_driver, n_hist=0, battery_
     run_nonascii_names(res, r, corr_cases, nonascii_stride)
     if n_conc:
         run_concurrent(res, r, n_conc, tmpls)
+    if n_shared:
+        # on a branch of the random stream: the histories / walks below draw what they drew before this class was added
+        state = r.getstate()
+        run_shared_object(res, r, n_shared, tmpls)
+        r.setstate(state)
     # object histories
     run_histories(res, r, n_hist, tmpls)
     if n_walks:
@@ -1397,11 +1607,17 @@ def run(res, tier, have_driver):
                 'tag in both classes with the name undefined and defined in the namespace; concurrent compilation: 2-3 threads '
                 'each compile (new object / munge / raw + cook / unpickle / deepcopy / cook again) and render twice their OWN, '
                 'different template (any mix of syntaxes / classes) under the deterministic line scheduler with preemptions '
-                'inside the compilation: each output == independent printer on that thread\'s template')
+                'inside the compilation: each output == independent printer on that thread\'s template; one object shared by '
+                '2-3 threads (object never compiled / compiled before; each thread 1-2 operations out of every source-giving '
+                'and source-keeping one incl. renderings; versions: templates, tag-free texts with candidates, templates in the '
+                'other class\'s syntax (= text), the empty '
+                'source) under the same scheduler: when all have returned read() is one of the sources given and the object '
+                'renders to the printer\'s output for THAT version (a tag-free one: to itself), also after cook(); renderings '
+                'made meanwhile are those of a version the object held')
     if tier == 'quick':
-        run_checks(res, r, 400, 1500, 2000, have_driver, 250, n_walks=250, n_conc=40, nonascii_stride=3)
+        run_checks(res, r, 400, 1500, 2000, have_driver, 250, n_walks=250, n_conc=40, nonascii_stride=3, n_shared=100)
     else:
-        run_checks(res, r, 6000, 30000, 20000, have_driver, 4000, n_walks=5000, n_conc=600)
+        run_checks(res, r, 6000, 30000, 20000, have_driver, 4000, n_walks=5000, n_conc=600, n_shared=800)
     res.sample({'example': 'see input_distribution'})
     res.assumptions += ['the hand-compiled scanners are validated against CPython re by the token correspondence, not proved '
                         'equivalent', 'rendering of the tags used by the oracle (sentinel var, fixed-truth if/unless, fixed-length '
@@ -1419,7 +1635,7 @@ def run(res, tier, have_driver):
 def search_more(res, tier):
     r = common.rng('C01-more')
     res2 = common.Result('C01')
-    run_checks(res2, r, 3000, 10000, 10000, False, 1500, n_walks=1500, n_conc=150)
+    run_checks(res2, r, 3000, 10000, 10000, False, 1500, n_walks=1500, n_conc=150, n_shared=200)
     return res2.oracle_fail
 
 
